@@ -69,6 +69,8 @@ class NodalStateSpaceModel(sp.StateSpaceModel):
     def _row_for_potential(self, node_id: str, matrix: np.ndarray) -> np.ndarray:
         if node_id in self.node_index_mapping:
             return matrix[:][self.node_index_mapping[node_id]:self.node_index_mapping[node_id]+1]
+        if node_id != self.network.node_zero_label:
+            raise KeyError(node_id)
         return np.zeros((1,matrix.shape[1]))
 
     def c_row_for_potential(self, node_id: str) -> np.ndarray:
